@@ -343,6 +343,13 @@ class Program:
                     out.append(p)
         return out
 
+    def impl_body(self, path):
+        """The body holding the code of fn `path`: the coroutine for an `async fn`, else the fn."""
+        co = self.bodies.get(path + "::{closure#0}")
+        if co is not None and co.kind == "coroutine":
+            return co
+        return self.bodies.get(path)
+
     def find_bodies(self, rx):
         r = re.compile(rx)
         return [b for p, b in self.bodies.items() if r.search(p)]
@@ -931,7 +938,7 @@ def describe(prog, body, x, depth=0, seen=None):
     References, derefs, casts and copies are transparent."""
     if seen is None:
         seen = set()
-    if depth > 14:
+    if depth > 60:
         return ("deep",)
     if isinstance(x, dict):
         k = x.get("k")
@@ -993,7 +1000,7 @@ def _describe_local(prog, body, l, depth, seen):
 
 
 def _describe_def(prog, body, d, depth, seen):
-    if depth > 14:
+    if depth > 60:
         return ("deep",)
     b, i, kind, payload = d
     if kind == "call":
